@@ -425,14 +425,19 @@ func init() {
 			}
 			peek := c.Fn("weightedFairQueueingPendingQueuePolicy.Peek")
 			okMin := false
+			// the rank of a stream is the finish tag of its HEAD chunk: chunkFinish[streamQueue.get(0)]
+			cf := c.field("weightedFairQueueingPendingQueuePolicy", "chunkFinish")
+			getFn := c.Fn("pendingBaseQueue.get")
 			forEachInstr(peek, func(in ssa.Instruction) {
 				if b, ok := in.(*ssa.BinOp); ok && b.Op == token.LSS {
-					if _, isLk := b.X.(*ssa.Lookup); isLk {
-						okMin = true
+					if lk, isLk := unconv(b.X).(*ssa.Lookup); isLk && IsLoadOf(cf)(lk.X) {
+						if call, isCall := isCallTo(unconv(lk.Index), getFn); isCall && IsConstInt(0)(call.Call.Args[1]) {
+							okMin = true
+						}
 					}
 				}
 			})
-			c.Check(okMin, "wfq-serves-min-finish", c.P.Pos(peek.Pos()), "Peek selects the smallest finish tag", "Peek no longer selects the smallest finish tag")
+			c.Check(okMin, "wfq-serves-min-finish", c.P.Pos(peek.Pos()), "Peek selects the smallest finish tag among the streams' head chunks", "Peek does not rank streams by the finish tag of their head chunk (chunkFinish[queue.get(0)]): with a backlog deeper than one chunk a stream is served until it drains")
 			// round robin
 			rr := c.Fn("roundRobinPendingQueuePolicy.Pop")
 			so := c.field("roundRobinPendingQueuePolicy", "streamOrder")
